@@ -1609,6 +1609,9 @@ class Engine:
         return [Outcome("normal", path)]
 
     def st_FunctionDef(self, st, path):
+        if st.name in getattr(self.c, "closure_contracts", ()):
+            # this helper has a contract of its own (verified separately): calls go through the contract's call hook, the body is not inlined
+            return [Outcome("normal", path)]
         path.env[st.name] = SFunc(st)
         return [Outcome("normal", path)]
 
